@@ -260,6 +260,24 @@ impl World {
         ci
     }
 
+    /// The application behind client `old` gives up on its `Client` object (dropping it closes the socket) and
+    /// connects again from the same local address - what a program bound to a fixed port does when it restarts.
+    /// The new client gets a slot (and link) of its own; datagrams still travelling to the address reach it.
+    pub fn reincarnate_client(&mut self, old: usize, cfg: &EpCfg, link: LinkState) -> usize {
+        let addr = self.clients[old].addr;
+        self.clients[old].client = None;
+        net::set_next_port(addr.port());
+        let ccfg = uflow::client::Config { endpoint_config: cfg.to_endpoint() };
+        let client = uflow::client::Client::connect(self.server_addr, ccfg).expect("virtual connect");
+        assert_eq!(client.local_address(), addr, "the virtual switch hands out the requested port");
+        let ci = self.clients.len();
+        self.clients.push(ClientSlot { client: Some(client), addr, cfg: cfg.clone(), events: Vec::new(), steps: 0, step_times: Vec::new(), t_connect_us: self.now_us });
+        self.links.push(link);
+        self.addr_to_client.insert(addr, ci);
+        self.route();
+        ci
+    }
+
     fn push_in_flight(&mut self, arrive_us: u64, from: SocketAddr, to: SocketAddr, bytes: Box<[u8]>, wire_idx: Option<u32>) {
         self.seq += 1;
         let seq = self.seq;
